@@ -138,6 +138,22 @@ def _mk_alloc(name):
     return w
 
 
+def _mk_like(name):
+    orig = getattr(_np, name)
+
+    def w(x, *a, **k):
+        # a concrete FLOAT array used as a template by the code under test will receive symbolic values: give it the
+        # object dtype (integer templates keep their dtype: truncation into them is real behaviour and is realised)
+        if _sym_caller() and engine() is not None and not a and 'dtype' not in k and isinstance(x, _np.ndarray) \
+                and x.dtype.kind == 'f':
+            r = _np.empty(x.shape, dtype=object)
+            r[...] = _np.float64(1.0) if name == 'ones_like' else _np.float64(0.0)
+            return r
+        return orig(x, *a, **k)
+    w.__name__ = name
+    return w
+
+
 def _power(x, p, *a, **k):
     if _sym_caller() and (_has_sym(x) or _has_sym(p)):
         return x ** p
@@ -315,6 +331,8 @@ for _n in _EW:
     _NP_PATCH[_n] = _mk_ew
 for _n in ('zeros', 'ones', 'empty', 'full'):
     _NP_PATCH[_n] = _mk_alloc
+for _n in ('zeros_like', 'ones_like', 'empty_like'):
+    _NP_PATCH[_n] = _mk_like
 
 
 def _math_wrap(name, fsym):
